@@ -36,6 +36,11 @@ type c04Run struct {
 	Finish    string    `json:"finish"`
 	Seed      int64     `json:"seed"`
 	Trace     bool      `json:"trace"`
+	// a counter whose record exists before the race with the value 2^64-1-(MaxVal-WarmVal);
+	// values of that size are reported relative to 2^64-1-MaxVal
+	Warm    string `json:"warm"`
+	WarmVal int    `json:"warmVal"`
+	MaxVal  int    `json:"maxVal"`
 }
 
 const c04NameLen = 4080 // record size 4096: three records per 16 KiB page
@@ -172,7 +177,11 @@ func (w *c04World) project() rt.M {
 				r["name"] = "other"
 			}
 			r["len"] = binary.LittleEndian.Uint32(data[off+8:]) != 0
-			r["val"] = int(binary.LittleEndian.Uint64(data[off:]))
+			raw := binary.LittleEndian.Uint64(data[off:])
+			r["val"] = int(raw)
+			if w.run.MaxVal > 0 && raw > 1<<62 {
+				r["val"] = int(int64(raw - (^uint64(0) - uint64(w.run.MaxVal))))
+			}
 			nx := w.slotOf(binary.LittleEndian.Uint32(data[off+12:]))
 			if r["name"] == "filler" {
 				nx = 0 // fillers live in buckets the model does not have
@@ -246,6 +255,16 @@ func c04One(t *testing.T, run *c04Run) {
 	for i := 0; i < run.InitSlots; i++ {
 		c := &Counter{name: c04Fillers[i], file: f0}
 		c.Add(1)
+	}
+	if run.Warm != "" {
+		c := &Counter{name: c04Names[run.Warm], file: f0}
+		c.Add(1)
+		v, _, _, _ := f0.current.Raw().lookup(c04Names[run.Warm])
+		if v == nil {
+			t.Fatalf("setup: warm record not found")
+		}
+		v.Store(^uint64(0) - uint64(run.MaxVal-run.WarmVal))
+		w.begun[run.Warm] = run.WarmVal
 	}
 	f0.current.Raw().close()
 	s := rt.NewSched()
